@@ -25,7 +25,7 @@ RULE += ('; also: namespaces given as OrderedDict / UserDict / read-only mapping
 ASSUMPTIONS = ['attribute assignment on AttributesFrozendict does not change the mapping and is not judged',
                'specs whose non-callable default violates the port itself are rejected at definition time and skipped',
                'reference model written from the statement and documentation']
-REQUIRED = ['factory_defaults_compared', 'constructed', 'accepted', 'rejected', 'defaults_populated', 'callable_defaults', 'populate_defaults_false', 'dynamic_values', 'immutability_probes',
+REQUIRED = ['own_created_state_class', 'factory_defaults_compared', 'constructed', 'accepted', 'rejected', 'defaults_populated', 'callable_defaults', 'populate_defaults_false', 'dynamic_values', 'immutability_probes',
             'caller_dict_checks', 'metamorphic/idempotent', 'metamorphic/remove_required', 'metamorphic/wrong_type', 'nested_ns_levels', 'exposed_specs', 'legacy_validators', 'aliased_namespace_values', 'mapping_leaf_values']
 BOUNDS = {'quick': '250 specs (depth<=2) x 40 inputs', 'thorough': '4000 specs (depth<=3) x 60 inputs'}
 UN = '<absent>'
@@ -98,6 +98,12 @@ def v_not1_old(value):
     return v_not1(value, None)
 
 
+def v_not1_raises(value, port):
+    """The same rule, refusing by raising -- without a message (a bare ``assert`` / ``raise ValueError()``): refused all the same."""
+    if v_not1(value, port) is not None:
+        raise ValueError()
+
+
 def nsv_no_x_old(values):
     return nsv_no_x(values, None)
 
@@ -107,8 +113,8 @@ def nsv_some(values, port):
     return 'nothing given' if not values else None
 
 
-VALIDATORS = {'nsv_some': nsv_some, 'v_not1': v_not1, 'nsv_no_x': nsv_no_x, 'v_short': v_short, 'v_not1_old': v_not1_old, 'nsv_no_x_old': nsv_no_x_old}
-MODEL_VALIDATORS = {'nsv_some': nsv_some, 'v_not1': v_not1, 'nsv_no_x': nsv_no_x, 'v_short': v_short, 'v_not1_old': v_not1, 'nsv_no_x_old': nsv_no_x}
+VALIDATORS = {'nsv_some': nsv_some, 'v_not1': v_not1, 'nsv_no_x': nsv_no_x, 'v_short': v_short, 'v_not1_old': v_not1_old, 'nsv_no_x_old': nsv_no_x_old, 'v_not1_raises': v_not1_raises}
+MODEL_VALIDATORS = {'nsv_some': nsv_some, 'v_not1': v_not1, 'nsv_no_x': nsv_no_x, 'v_short': v_short, 'v_not1_old': v_not1, 'nsv_no_x_old': nsv_no_x, 'v_not1_raises': v_not1}
 CALLABLES = {'d7': d7, 'd_s': d_s, 'cls_A': A, 'cls_list': list, 'serial': Serial}  # (a class is a callable default like any other: evaluated per construction)
 NAMES = ['a', 'ab', 'n', 'm', 'x']
 
@@ -177,7 +183,7 @@ def rand_port(rng):
             if val != 1:
                 attrs['default'] = ['val', val]
     if rng.random() < 0.2 and vt in (None, 'int', 'intstr'):
-        attrs['validator'] = 'v_not1' if rng.random() < 0.6 else 'v_not1_old'
+        attrs['validator'] = rng.choice(['v_not1', 'v_not1', 'v_not1', 'v_not1_old', 'v_not1_old', 'v_not1_raises'])
     if rng.random() < 0.1 and (vt or 'validator' in attrs):
         # the type / validator are set through the property setters after the port was declared (a sub class tightening an inherited
         # port): the default in place need not conform any more, which must show as soon as it is used
@@ -343,6 +349,30 @@ def build(ns, children):
 _CLS = {}
 
 
+class Queued(plumpy.process_states.State):
+    """An application's own class for the CREATED state, written from scratch on top of ``State`` (states are identified by their
+    label): whatever class stands for CREATED, the inputs are checked when the process is created."""
+    LABEL = plumpy.ProcessState.CREATED
+    ALLOWED = {plumpy.ProcessState.RUNNING, plumpy.ProcessState.KILLED, plumpy.ProcessState.EXCEPTED}
+
+    def __init__(self, process, run_fn, *args, **kwargs):
+        super().__init__(process)
+        self.run_fn = run_fn
+        self.args = args
+        self.kwargs = kwargs
+
+    def execute(self):
+        return self.create_state(plumpy.ProcessState.RUNNING, self.run_fn, *self.args, **self.kwargs)
+
+
+class OwnCreatedState(plumpy.Process):
+    @classmethod
+    def get_state_classes(cls):
+        states = dict(super().get_state_classes())
+        states[plumpy.ProcessState.CREATED] = Queued
+        return states
+
+
 def spec_class(spec, si, exposed=False):
     if exposed:
         # the same ports arrive in the spec of another class through expose_inputs() (no namespace, nothing excluded): what is
@@ -375,7 +405,8 @@ def spec_class(spec, si, exposed=False):
             setattr(pspec.inputs, k, v)
         build(pspec.inputs, children)
 
-    cls = type('In_%d' % len(_CLS), (plumpy.Process,), {})
+    # (every third class has a CREATED state class of its own)
+    cls = type('In_%d' % len(_CLS), (OwnCreatedState if si % 3 == 2 else plumpy.Process,), {})
     cls.define = classmethod(define)
     generated.register(cls)
     try:
@@ -559,6 +590,7 @@ def run_case(case):
     obs['nested_ns_levels'] = 1 if stats.get('nested_ns_levels', 0) >= 2 else 0
     proc, exc = _construct(cls, inputs)
     obs['constructed'] = 1
+    obs['own_created_state_class'] = int(isinstance(cls, type) and issubclass(cls, OwnCreatedState))
     shape = _shape(spec)
     if proc is None:
         obs['rejected'] = 1
